@@ -270,14 +270,20 @@ func satisfiesTildeConstraint(version, constraint *Version, precision int) bool 
 // normalizePartialVersion converts partial versions to full versions
 // e.g., "1.2" -> "1.2.0", "1" -> "1.0.0"
 func normalizePartialVersion(version string) string {
-	parts := strings.Split(version, ".")
+	// Only the numeric core is padded; a pre-release or build suffix is kept as written
+	core, suffix := version, ""
+	if i := strings.IndexAny(version, "-+"); i != -1 {
+		core, suffix = version[:i], version[i:]
+	}
+
+	parts := strings.Split(core, ".")
 
 	// Ensure we have exactly 3 parts
 	for len(parts) < 3 {
 		parts = append(parts, "0")
 	}
 
-	return strings.Join(parts[:3], ".")
+	return strings.Join(parts[:3], ".") + suffix
 }
 
 // countVersionComponents counts the number of version components in a string
